@@ -448,6 +448,15 @@ pub fn build_runtime() -> Runtime<roto::NoCtx> {
                 RotoString::from("Tz")
             }
         }
+        /// zero-sized argument in front of / between other arguments
+        fn hz2(z: Val<Tz>, x: i32) -> i32 {
+            let _ = z;
+            x
+        }
+        fn hz3(a: i32, z: Val<Tz>, b: i32) -> i32 {
+            let _ = z;
+            a.wrapping_mul(31).wrapping_add(b)
+        }
         impl Val<Tc> {
             fn first(self) -> u8 {
                 self.0.0
